@@ -439,3 +439,103 @@ func TestC16SQLiteRepublishAfterStall(t *testing.T) {
 		col.Case(taken < n, hx.JSON(desc), func() any { return desc })
 	})
 }
+
+// TestC16SQLiteRetryAfterFault: the first attempt to write a batch fails (one injected driver
+// fault); the handler retries after its back-off while further EVENTs arrive. Every EVENT was
+// answered by an accepting OK, so once the writer has caught up a REQ returns all of them.
+func TestC16SQLiteRetryAfterFault(t *testing.T) {
+	col := ev.For("C16").SetRule(c16Rule)
+	rapid.Check(t, func(t *rapid.T) {
+		db, _, err := openMem("sqlite3_verif_fault")
+		if err != nil {
+			t.Fatalf("open: %v", err)
+		}
+		defer db.Close()
+		hctx, hcancel := context.WithCancel(context.Background())
+		defer hcancel()
+		opt := mocsqlite.NewDefaultSQLiteHandlerOption()
+		opt.EventBulkInsertNum = rapid.IntRange(1, 3).Draw(t, "bulk")
+		opt.EventBulkInsertDur = 0
+		h, err := mocsqlite.NewSQLiteHandler(hctx, db, opt)
+		if err != nil {
+			t.Fatalf("handler: %v", err)
+		}
+		failAt := rapid.IntRange(0, 6).Draw(t, "failing_driver_call")
+		errKind := rapid.SampledFrom([]string{"generic", "busy", "ioerr"}).Draw(t, "fault_error")
+		during := rapid.IntRange(1, 5).Draw(t, "events_during_the_back_off")
+		desc := map[string]any{"handler": "sqlite", "bulk_insert_num": opt.EventBulkInsertNum, "failing_driver_call": failAt, "fault_error": errKind, "events_during_the_back_off": during}
+		failf := func(sig, clause, obs string) {
+			hx.Fail(t, ev.Failure{Property: "C16", Signature: sig, Clause: clause, Case: desc, Observed: obs})
+		}
+		s := startSess(h)
+		defer s.cancel()
+		var evs []*mocrelay.Event
+		publish := func(i int) {
+			e := &mocrelay.Event{Pubkey: gen.Keys[i%2].Pub, Kind: 1, CreatedAt: int64(1000 + i), Tags: []mocrelay.Tag{}, Content: fmt.Sprint("retry ", i)}
+			gen.Seal(e)
+			evs = append(evs, e)
+			replies, err := s.ask(&mocrelay.ClientEventMsg{Event: e})
+			if err != nil {
+				failf("sqlite-handler-stalled", "every EVENT is answered", err.Error())
+			}
+			if len(replies) != 1 {
+				failf("sqlite-replies", "each EVENT gets exactly one accepting OK with its id", hx.JSON(gen.Norm(at0(replies))))
+			}
+			if r, is := replies[0].(*mocrelay.ServerOKMsg); !is || r.EventID != e.ID || !r.Accepted {
+				failf("sqlite-replies", "each EVENT gets exactly one accepting OK with its id", hx.JSON(gen.Norm(replies[0])))
+			}
+		}
+		theFaultCtl.mu.Lock()
+		theFaultCtl.err = faultErrors[errKind]
+		theFaultCtl.mu.Unlock()
+		theFaultCtl.arm(failAt)
+		defer func() {
+			theFaultCtl.disarm()
+			theFaultCtl.mu.Lock()
+			theFaultCtl.err = nil
+			theFaultCtl.mu.Unlock()
+		}()
+		// the first batch (its write fails once), then more events while the writer backs off,
+		// then enough to complete the last batch
+		n := opt.EventBulkInsertNum + during
+		n += (opt.EventBulkInsertNum - n%opt.EventBulkInsertNum) % opt.EventBulkInsertNum
+		for i := 0; i < n; i++ {
+			publish(i)
+		}
+		var ids []string
+		for _, e := range evs {
+			ids = append(ids, e.ID)
+		}
+		deadline := time.Now().Add(12 * time.Second)
+		for {
+			replies, err := s.ask(&mocrelay.ClientReqMsg{SubscriptionID: "all", ReqFilters: []*mocrelay.ReqFilter{{IDs: ids}}})
+			if err != nil {
+				failf("sqlite-handler-stalled", "REQ is answered", err.Error())
+			}
+			got := map[string]bool{}
+			for _, r := range replies {
+				if em, is := r.(*mocrelay.ServerEventMsg); is {
+					got[em.Event.ID] = true
+				}
+			}
+			if len(got) == len(evs) {
+				break
+			}
+			if time.Now().After(deadline) {
+				var missing []int
+				for i, e := range evs {
+					if !got[e.ID] {
+						missing = append(missing, i)
+					}
+				}
+				_, fired := theFaultCtl.disarm()
+				desc["fault_fired_at"] = fired
+				failf("sqlite-acknowledged-event-lost", "REQ returns the stored matches: an event whose EVENT was answered by an accepting OK is stored once the writer has caught up (the first write attempt of a batch failed and was retried)", fmt.Sprintf("still missing after 12 s: events %v of %d", missing, len(evs)))
+			}
+			time.Sleep(20 * time.Millisecond)
+		}
+		_, fired := theFaultCtl.disarm()
+		col.Label("handler:sqlite-retry-after-fault")
+		col.Case(fired != "", hx.JSON(desc), func() any { return desc })
+	})
+}
